@@ -11,6 +11,7 @@ import (
 	"path"
 	"path/filepath"
 	"strconv"
+	"strings"
 	"sync"
 	"time"
 
@@ -757,6 +758,11 @@ func (f *STFS) Rename(oldname, newname string) error {
 	// Renaming an existing entry to itself is a no-op
 	if oldname == newname {
 		return nil
+	}
+
+	// Prevent moving a directory into itself
+	if strings.HasPrefix(newname, strings.TrimSuffix(oldname, "/")+"/") {
+		return os.ErrInvalid
 	}
 
 	if _, err := inventory.Stat(
